@@ -79,6 +79,22 @@ fn node(c: i64, prio: u32) -> Treap<TItem> {
     Treap { root: Some(Box::new(TreapNode { item: TItem::new(c), priority: prio, left: None, right: None })) }
 }
 
+/// a singleton item with value c that still carries a pending modification (the state root_mut().apply() leaves a
+/// one-element treap in): lawful, and the pending part concerns no other element
+fn pending_item(c: i64) -> TItem {
+    // c = 2 * c0 + 1 (mod Q)
+    let inv2 = (Q + 1) / 2;
+    let c0 = ((c - 1).rem_euclid(Q) * inv2).rem_euclid(Q);
+    let mut it = TItem::new(c0);
+    it.apply((2, 1));
+    debug_assert_eq!(it.c, c.rem_euclid(Q));
+    it
+}
+
+fn node_pending(c: i64, prio: u32) -> Treap<TItem> {
+    Treap { root: Some(Box::new(TreapNode { item: pending_item(c), priority: prio, left: None, right: None })) }
+}
+
 fn take(slots: &mut Vec<Treap<TItem>>, s: usize) -> Treap<TItem> {
     std::mem::replace(&mut slots[s], Treap::new())
 }
@@ -96,6 +112,8 @@ pub fn replay(cases_path: &str, out: &str) {
             nontrivial += 1;
         }
         let mut slots: Vec<Treap<TItem>> = (0..9).map(|_| Treap::new()).collect();
+        // every second case inserts items that still carry a pending modification of their own
+        let pending_variant = v.cases % 2 == 0;
         for (k, op) in hist.iter().enumerate() {
             let a = getu(op, "a");
             let b = getu(op, "b");
@@ -129,7 +147,8 @@ pub fn replay(cases_path: &str, out: &str) {
                     "insert_at" => {
                         // the crate's insert_at composition, with the priority the specification chose
                         let (l, r) = take(&mut slots, a).split_at(getu(op, "x"));
-                        let nd = node(op["y"][0].as_i64().unwrap(), op["y"][1].as_i64().unwrap() as u32);
+                        let (c, pr) = (op["y"][0].as_i64().unwrap(), op["y"][1].as_i64().unwrap() as u32);
+                        let nd = if pending_variant { node_pending(c, pr) } else { node(c, pr) };
                         slots[a] = Treap::merge(Treap::merge(l, nd), r);
                         None
                     }
@@ -259,7 +278,8 @@ pub fn record(seed: u64, tier: &str, out: &str) {
                 match roll {
                     0..=24 if total < cap => {
                         let (pos, c) = (rng.usize(n + 1), rng.below(5) as i64);
-                        lv.slots[s].insert_at(pos, TItem::new(c));
+                        // every third inserted item still carries a pending modification of its own
+                        lv.slots[s].insert_at(pos, if rng.chance(1, 3) { pending_item(c) } else { TItem::new(c) });
                         lv.t.ev(json!({"ev": "insert_at", "a": s, "pos": pos, "c": c}));
                     }
                     0..=34 => {
